@@ -14,8 +14,36 @@ fn flag(viol: &mut Vec<(String, String)>, rule: &str, ctx: &str, detail: String)
     viol.push((format!("C14:{}:{}", rule, ctx), detail));
 }
 
+thread_local! {
+    /// how the CONNACK of the current case is dressed (see `SiteCase::dress`)
+    static DRESS: std::cell::Cell<u8> = const { std::cell::Cell::new(0) };
+}
+
+/// The CONNACK properties carrying Maximum Packet Size `m`, among other properties and in different
+/// positions according to the current case's `dress`: 0 alone; 1 behind / 2 in front of an Assigned
+/// Client Identifier echoing the client's own; 3 in the middle of Receive Maximum, Topic Alias Maximum,
+/// a user property and a reason string; 4 the same reversed; 5 behind a different assigned identifier.
 fn maxprop(m: Option<u32>) -> Vec<Prop> {
-    m.map(|m| vec![Prop { id: 0x27, val: PVal::U32(m) }]).unwrap_or_default()
+    let Some(m) = m else { return vec![] };
+    let x = Prop { id: 0x27, val: PVal::U32(m) };
+    let echo = Prop { id: 0x12, val: PVal::Str(b"mcx".to_vec()) };
+    let mut v = match DRESS.with(|d| d.get()) {
+        1 => vec![echo, x],
+        2 => vec![x, echo],
+        3 | 4 => vec![
+            Prop { id: 0x21, val: PVal::U16(20) },
+            Prop { id: 0x22, val: PVal::U16(5) },
+            x,
+            Prop { id: 0x26, val: PVal::Pair(b"k".to_vec(), b"v".to_vec()) },
+            Prop { id: 0x1F, val: PVal::Str(b"ok".to_vec()) },
+        ],
+        5 => vec![Prop { id: 0x12, val: PVal::Str(b"renamed".to_vec()) }, x],
+        _ => vec![x],
+    };
+    if DRESS.with(|d| d.get()) == 4 {
+        v.reverse();
+    }
+    v
 }
 
 // ---------------------------------------------------------------------------------------------
@@ -30,6 +58,9 @@ pub struct SiteCase {
     pub site: u8,
     /// size parameter (payload / filter / reason-string length)
     pub n: usize,
+    /// position of Maximum Packet Size among other CONNACK properties (see `maxprop`)
+    #[serde(default)]
+    pub dress: u8,
 }
 
 fn site_name(s: u8) -> &'static str {
@@ -94,6 +125,7 @@ fn do_site(c: &SiteCase, m: Option<u32>) -> Option<(Result<(), Res>, Vec<u8>, bo
 }
 
 pub fn eval_site(c: &SiteCase) -> CaseOut {
+    DRESS.with(|d| d.set(c.dress));
     guarded("C14", || {
         let mut viol = Vec::new();
         let name = site_name(c.site);
@@ -163,7 +195,13 @@ fn site_cases(tier: Tier) -> Vec<SiteCase> {
                 }
             };
             for n in ns {
-                v.push(SiteCase { m, site, n });
+                v.push(SiteCase { m, site, n, dress: 0 });
+                // the limit at other positions of the CONNACK property block: around the boundary only
+                if (n as i64 - m as i64).abs() <= 8 && (m % 7 == 3 || tier == Tier::Thorough) {
+                    for dress in 1..=5u8 {
+                        v.push(SiteCase { m, site, n, dress });
+                    }
+                }
             }
         }
     }
@@ -251,6 +289,7 @@ fn run_ack(c: &AckCase, m: Option<u32>) -> Option<(Vec<Res>, Vec<u8>, bool)> {
 }
 
 pub fn eval_ack(c: &AckCase) -> CaseOut {
+    DRESS.with(|d| d.set(0));
     guarded("C14", || {
         let mut viol = Vec::new();
         let Some((r0, w0, a0)) = run_ack(c, None) else { panic!("machinery: twin setup failed") };
@@ -310,9 +349,13 @@ pub struct ReplayCase {
     pub n: usize,
     /// limit on the resumed connection relative to the retained packet's length
     pub delta: i32,
+    /// position of Maximum Packet Size among other CONNACK properties (see `maxprop`)
+    #[serde(default)]
+    pub dress: u8,
 }
 
 pub fn eval_replay(c: &ReplayCase) -> CaseOut {
+    DRESS.with(|d| d.set(c.dress));
     guarded("C14", || {
         let mut viol = Vec::new();
         let spec = Spec::plain(64, 512);
@@ -398,6 +441,7 @@ fn publish_of_total(total: usize) -> Option<Vec<u8>> {
 }
 
 pub fn eval_in(c: &InCase) -> CaseOut {
+    DRESS.with(|d| d.set(0));
     guarded("C14", || {
         let mut viol = Vec::new();
         let bytes: Vec<u8> = if c.declared_only {
@@ -523,7 +567,9 @@ pub fn run(tier: Tier, caps: &Caps) -> Vec<FamilyReport> {
     for kind in 1..=3u8 {
         for n in [1usize, 2, 20, 118, 119, 120, 121, 122, 200] {
             for delta in -3..=3 {
-                rc.push(ReplayCase { kind, n, delta });
+                for dress in [0u8, 1, 2, 3, 4] {
+                    rc.push(ReplayCase { kind, n, delta, dress });
+                }
             }
         }
     }
